@@ -26,6 +26,21 @@ type verifLife struct {
 	// an arrival in progress: the read loop's getConn stopped before it counts the new connection
 	arrName string
 	arrAddr *net.UDPAddr
+	lastNew *Conn // the connection the last arrival created, if any
+}
+
+// receiver is the Accept caller (thread index) that was handed the connection of the last arrival
+// directly, or -1: with several callers blocked Go serves the one that has waited longest.
+func (v *verifLife) receiver() int {
+	if v.lastNew == nil {
+		return -1
+	}
+	for i, c := range v.resConn {
+		if c == v.lastNew {
+			return i
+		}
+	}
+	return -1
 }
 
 func (v *verifLife) newRemote() *net.UDPAddr {
@@ -79,12 +94,14 @@ func (v *verifLife) arriveEnd() {
 }
 
 func (v *verifLife) noteConn(rm *net.UDPAddr) {
+	v.lastNew = nil
 	v.ln.connLock.Lock()
 	c, ok := v.ln.conns[rm.String()]
 	v.ln.connLock.Unlock()
 	if ok {
 		if _, seen := v.ids[c]; !seen {
 			v.ids[c] = len(v.ids)
+			v.lastNew = c
 		}
 	}
 }
@@ -116,7 +133,35 @@ func (v *verifLife) sockClosed() bool {
 	return uc.SetDeadline(time.Time{}) != nil
 }
 
+// settleClose waits, once the socket has been closed, until the unmanaged goroutines (the closer and the
+// read loop) have finished and everybody who was blocked in readWG.Wait() has been released: their
+// exit is asynchronous and the scheduler's quiescence test cannot see it coming.
+func (v *verifLife) settleClose() {
+	if !v.sockClosed() {
+		return
+	}
+	select {
+	case <-v.ln.readDoneCh:
+	case <-time.After(2 * time.Second):
+		return
+	}
+	for i := 0; i < 200; i++ {
+		waiting := false
+		for _, p := range cosched.Positions() {
+			if p.State == "parked semacquire" || p.State == "parked sync.WaitGroup.Wait" {
+				waiting = true
+			}
+		}
+		if !waiting {
+			return
+		}
+		time.Sleep(time.Millisecond)
+		cosched.Quiesce(time.Second)
+	}
+}
+
 func (v *verifLife) line() string {
+	v.settleClose()
 	pos := cosched.Positions()
 	pcs := make([]string, len(v.names))
 	index := map[string]int{}
@@ -290,6 +335,9 @@ func verifLifeRun(o *vh.Out, id string, cfg []string, sched []string, r *vh.Rng)
 			if v.arrName == "" {
 				v.arrive()
 				cosched.Quiesce(2 * time.Second)
+				if t := v.receiver(); t >= 0 && len(f) == 1 {
+					op = fmt.Sprintf("arr %d", t)
+				}
 			}
 		case "arb":
 			if v.arrName == "" {
@@ -299,6 +347,9 @@ func verifLifeRun(o *vh.Out, id string, cfg []string, sched []string, r *vh.Rng)
 			if v.arrName != "" {
 				v.arriveEnd()
 				cosched.Quiesce(2 * time.Second)
+				if t := v.receiver(); t >= 0 && len(f) == 1 {
+					op = fmt.Sprintf("are %d", t)
+				}
 			}
 		case "g":
 			t := vh.Atoi(f[1])
